@@ -57,6 +57,12 @@ NEEDS = {
  'C09_3': ('X.output of a service/aggregate no longer rejected when X is also listed in dependencies', 'a reachable target naming a non-build X both in dependencies and as X.output'),
  'C12_3': ('bare --clean deletes one checksums file per declared target and removes .zinoma only if empty', 'state of a target that is no longer declared (renamed) at the time of the full clean'),
  'C13_3': ('producers named both ways are filtered before their outputs are merged into the consumer\'s input', 'a consumer naming the same producer under dependencies and as X.output (same or imported project)'),
+ 'C03_4': ('eq_current_state checks files resources one at a time and compares the SUM of their file counts with the number of recorded entries (the recorded set is the de-duplicated union)', 'a target whose two files resources (input or output, e.g. `gen.output` + `{paths: [src]}` with gen writing below src) reach a common file; second invocation on the untouched tree'),
+ 'C06_4': ('Invalidated handling moved into a helper that returns early when the target is already invalidated: the second dependency is never marked unavailable', 'watch mode; two dependencies of one target invalidated while the first is still rebuilding (two edits close together, or a diamond)'),
+ 'C07_4': ('execute_once keeps the error in a variable and leaves through the common exit, which waits for Ctrl-C when a root service is running', 'one-shot; a requested service (or an aggregate of one) already acknowledged when another needed target fails'),
+ 'C08_4': ('a new requester of a build that has not succeeded yet re-arms it (`to_execute = true`), whatever is in flight', 'a build with two requesters, the second request arriving while the first execution is in progress (shared dependency, explicit + depended on)'),
+ 'C11_4': ('the aggregate keeps one `actual` bool per kind folded with `&=` (|= would be right)', 'one-shot; a service requested through an aggregate that also has a service-less dependency'),
+ 'C16_4': ('the watcher callback returns early on Modify(Name(From|To)) events, assuming a Name(Both) report always follows', 'a file moved into a declared directory from outside, or moved out of the declared paths'),
  'C14_3': ('import-key check moved into the recursive loader: once per project directory (first edge), not once per import edge', 'a project reached by two import edges, a later one under a wrong key (cycle back to the root: deterministic; diamond: order-dependent)'),
  'C15_3': ('a listed path lexically nested under another listed path of the same resource is not walked', 'a symlinked directory listed next to its parent, a `..` path, or a path inside .zinoma under a listed path'),
  'C16_3': ('watcher ignores the single-path halves of a rename (From / To events)', 'watch mode; a rename with only one end under the watcher: move in, move out, move between targets, temp file kept outside'),
